@@ -11,6 +11,7 @@ import (
 	"pgregory.net/rapid"
 
 	"verif/harness/hx"
+	"verif/harness/ref"
 )
 
 // The pool engine: a history of API calls grows a pool of go-ipa elements computed
@@ -35,7 +36,7 @@ type history struct {
 }
 
 var poolOps = []string{
-	"small", "small", "crs", "add", "add", "sub", "double", "neg", "mul", "mul", "msm", "commit", "redecode", "unc_trusted",
+	"small", "small", "small_ratio", "crs", "add", "add", "sub", "double", "neg", "mul", "mul", "msm", "commit", "redecode", "unc_trusted",
 	"normalize", "batchnorm", "batchnorm_all", "rescale", "flip", "torsion", "pqq", "dist", "self_sub", "set", "setidentity", "mul_edge", "neg_pair",
 }
 
@@ -61,6 +62,8 @@ func genHistory(t *rapid.T, maxActs int) history {
 		switch a.Op {
 		case "small":
 			a.N = rapid.IntRange(0, 40).Draw(t, "k")
+		case "small_ratio":
+			a.N = rapid.IntRange(0, 400).Draw(t, "ratio")
 		case "crs":
 			a.N = rapid.IntRange(0, 255).Draw(t, "i")
 		case "add", "sub", "pqq":
@@ -140,6 +143,53 @@ func glvEdgeScalars() []*big.Int {
 	return out
 }
 
+// smallRatioPoint searches, from a start value derived from n, a subgroup point whose x/y is a SMALL integer t
+// (below 2^64, 2^128 or 2^192): with x = t*y the curve equation is a quadratic in y^2.
+func smallRatioPoint(n int) (hx.RPt, bool) {
+	base := big.NewInt(int64(1 + n%50))
+	switch (n / 50) % 4 {
+	case 1:
+		base.Add(base, new(big.Int).Lsh(big.NewInt(1), 63))
+	case 2:
+		base.Add(base, new(big.Int).Lsh(big.NewInt(int64(1+n%7)), 127))
+	case 3:
+		base.Add(base, new(big.Int).Lsh(big.NewInt(int64(1+n%5)), 190))
+	}
+	P := ref.P
+	for k := int64(0); k < 400; k++ {
+		t := new(big.Int).Add(base, big.NewInt(k))
+		t2 := new(big.Int).Mul(t, t)
+		t2.Mod(t2, P)
+		// d t^2 Y^2 - (a t^2 + 1) Y + 1 = 0 with Y = y^2
+		A := new(big.Int).Mul(ref.CurveD, t2)
+		A.Mod(A, P)
+		B := new(big.Int).Mul(ref.CurveA, t2)
+		B.Add(B, big.NewInt(1)).Mod(B, P)
+		disc := new(big.Int).Mul(B, B)
+		disc.Sub(disc, new(big.Int).Lsh(A, 2)).Mod(disc, P)
+		sq := new(big.Int).ModSqrt(disc, P)
+		if sq == nil || A.Sign() == 0 {
+			continue
+		}
+		inv2A := new(big.Int).ModInverse(new(big.Int).Lsh(A, 1), P)
+		for _, sgn := range []int64{1, -1} {
+			Y := new(big.Int).Add(B, new(big.Int).Mul(big.NewInt(sgn), sq))
+			Y.Mul(Y, inv2A).Mod(Y, P)
+			y := new(big.Int).ModSqrt(Y, P)
+			if y == nil || y.Sign() == 0 {
+				continue
+			}
+			x := new(big.Int).Mul(t, y)
+			x.Mod(x, P)
+			p := hx.G.FromAffine(x, y)
+			if hx.G.IsValid(p) && ref.SubgroupOK(x) {
+				return p, true
+			}
+		}
+	}
+	return hx.RPt{}, false
+}
+
 var twoTorsionBytes = make([]byte, 32) // decodes to (0,-1)
 
 // runPool executes the history on go-ipa. Every produced element must be a valid curve point.
@@ -166,6 +216,17 @@ func runPool(h history, rec *hx.Rec) ([]*banderwagon.Element, error) {
 			case "small":
 				s := hx.FrFromBig(big.NewInt(int64(a.N)))
 				e.ScalarMul(&banderwagon.Generator, &s)
+				err = add(a.Op, e)
+			case "small_ratio":
+				if p, ok := smallRatioPoint(a.N); ok {
+					b := hx.G.Compress(p)
+					if derr := e.SetBytes(b[:]); derr != nil { // enters go-ipa through its own untrusted decoder
+						err = fmt.Errorf("decoding a valid subgroup point with a small x/y failed: %v", derr)
+						return
+					}
+				} else {
+					*e = banderwagon.Generator
+				}
 				err = add(a.Op, e)
 			case "crs":
 				*e = Cfg().SRS[a.N%256]
